@@ -321,8 +321,9 @@ def try_replay(contract, registry, case, ob):
                 base[pname] = tuple(items)
             elif isinstance(spec, tuple) and spec and spec[0] == "lit":
                 base[pname] = spec[1]
-            elif isinstance(spec, str) and (spec.startswith("pred") or spec == "obj"):
-                base = None
+            elif (isinstance(spec, str) and (spec.startswith("pred") or spec == "obj")) or (
+                    isinstance(spec, tuple) and spec and spec[0] in ("node", "obj", "list", "native", "const")):
+                base = None  # no concrete counterpart of an opaque / structured symbolic argument: no replay from the model
                 break
             else:
                 base[pname] = spec
@@ -373,7 +374,7 @@ def replay_one(contract, registry, case, ob, kwargs):
             res["confirmed"] = True
             res["clause"] = ob.note
     elif ob.kind in ("safety", "raises"):
-        if real["outcome"] == "raise":
+        if real["outcome"] == "raise" and (ob.kind != "safety" or ob.extra.get("exc") in (None, real["value"])):
             allowed = contract.raises.get(real["value"])
             if allowed is None:
                 res["confirmed"] = True
